@@ -18,10 +18,11 @@ ASSUME TLCSet(1, ndJsonDeserialize(IOEnv.TRACE))
 Rec == TLCGet(1)
 Prop == IOEnv.PROP
 
-\* peak allocation allowed for an input of n bytes (see codec_checks.py: measured maximum on the
-\* unchanged tree is about 120 bytes per input byte -- a Vec<Value> / HashMap<_, Value> of one-byte
-\* elements while it grows; 170 is the arithmetic worst case)
-AllocBound(n) == 256 * n + 8192
+\* Peak allocation allowed for an input of n bytes.  On the unchanged tree the measured maximum is 183
+\* bytes per input byte (Vec1 of 300 `None`: a Vec<Value> with 72-byte elements while it doubles; the
+\* arithmetic worst case of that growth is 216 per byte, of a HashMap<u8, Value> about 140), so the
+\* bound leaves a factor > 2; a length field trusted for a pre-allocation exceeds it by orders of magnitude.
+AllocBound(n) == 512 * n + 16384
 
 V(l, why) == PrintT(<<"VIOLATION-AT", l, Prop, why>>)
 D(l, what) == PrintT(<<"DRIFT-AT", l, Prop, what>>)
@@ -57,8 +58,8 @@ C07Verdict(l, r) ==
   \* captured opaque sub-values
   /\ Need(r.capture.r # "diff", V(l, "captured opaque sub-value does not re-decode to the same value: " \o r.capture.d))
   \* allocation
-  /\ Need(r.alloc.dec <= AllocBound(n), V(l, "peak allocation of decoding exceeds 256*len+8192"))
-  /\ Need(r.alloc.skip <= AllocBound(n), V(l, "peak allocation of skipping exceeds 256*len+8192"))
+  /\ Need(r.alloc.dec <= AllocBound(n), V(l, "peak allocation of decoding exceeds 512*len+16384"))
+  /\ Need(r.alloc.skip <= AllocBound(n), V(l, "peak allocation of skipping exceeds 512*len+16384"))
   \* conformance with the reference
   /\ Need((r.dec.r = "ok") = rd.ok /\ (rd.ok => r.dec.n = rd.n), D(l, "decode verdict: real " \o r.dec.r \o " reference " \o rd.e))
   /\ \A i \in 1..4 : Need((paths[i][2].r = "ok") = rk.ok /\ (rk.ok /\ paths[i][2].r = "ok" => paths[i][2].n = rk.n),
